@@ -49,6 +49,12 @@ type flushWriter interface {
 }
 
 func (c *compressedConn) Read(p []byte) (int, error) {
+	// A zero-length read must not touch the decoder: brotli.Reader.Read pulls raw
+	// bytes into its input buffer before looking at len(p), and Reset does not
+	// discard them, so a pooled reader would replay them on its next connection.
+	if len(p) == 0 {
+		return 0, nil
+	}
 	return c.reader.Read(p)
 }
 
